@@ -644,7 +644,10 @@ register("C07", run_C07, module="Robotools.Props.C07",
          theorems=["Robotools.C07." + t for t in ("flows_split", "flows_nosplit", "flows_perm", "flows_mode_indep", "discipline",
                    "pair_volume_bounds", "break_closes", "no_break_without_split", "action_records", "pair_same_fields", "rejects_lengths",
                    "rejects_negative", "base_refuses_transfer")], rule="transfer programs: shuffled triples with repeats, all wash schemes / partition modes / DiTi")
-register("C11", run_C11, rule="mixed histories; history compared after every operation against deep copies")
+register("C11", run_C11, module="Robotools.Props.C11",
+         theorems=["Robotools.C11." + t for t in ("micro_hist_other", "micro_hist_log", "exec_hist_append", "condense_spec", "add_one_entry",
+                   "remove_one_entry", "aspirate_one_entry", "dispense_one_entry", "record_ops_no_entry", "transfer_entries", "lvh_count",
+                   "lvh_zero_no_split", "lvh_label", "report_order")], rule="mixed histories; history compared after every operation against deep copies")
 register("C16", run_C16, rule="each program executed on EvoWorklist, FluentWorklist and BaseWorklist against one device-parametric model")
 
 
@@ -1729,3 +1732,207 @@ def run_C13(ctx):
 register("C13", run_C13, genok=["gen_templateEvoAspirate_ok", "gen_templateEvoDispense_ok", "gen_templateEvoWash_ok", "gen_tipSlots_ok",
                                 "gen_maxGrid_ok", "gen_maxSite_ok", "gen_maxDilutorVolume_ok", "gen_selBits_ok", "gen_selOffset_ok"],
          rule="evo_aspirate/evo_dispense/evo_wash programs on plates and troughs: wells of one column in ascending order with shuffled distinct tips, scalar and per-tip volumes; one fault per invalid call (order, repeats, columns, ranges, lengths)")
+
+
+# ------------------------------------------------------------------ C14 DilutionPlan
+def plan_ok(plan, stock, min_transfer):
+    """Independent statement of the plan-level clauses of C14 on a DilutionPlan object (exact arithmetic)."""
+    import numpy as np
+    R, C = plan.R, plan.C
+    vmax = [F(float(v)) for v in plan.vmax]
+    conc = {}
+    drawn = {}
+    prepared = []
+    if len(plan.instructions) != C or sorted(i[0] for i in plan.instructions) != list(range(C)):
+        return "not every column is prepared exactly once"
+    for col, dsteps, src, v in plan.instructions:
+        vs = [F(float(x)) for x in np.atleast_1d(v)]
+        if len(vs) != R:
+            return f"column {col}: {len(vs)} volumes for {R} rows"
+        for x in vs:
+            if x.denominator != 1:
+                return f"column {col}: transfer volume {float(x)} is not a whole number of microlitres"
+            if x < F(min_transfer):
+                return f"column {col}: transfer volume {float(x)} below min_transfer {float(min_transfer)}"
+            if x > vmax[col]:
+                return f"column {col}: transfer volume {float(x)} above vmax {float(vmax[col])}"
+        if isinstance(src, str):
+            if src != "stock" or dsteps != 0:
+                return f"column {col}: source {src!r} with {dsteps} dilution steps"
+            conc[col] = [x / vmax[col] * F(stock) for x in vs]
+        else:
+            src = int(src)
+            if src not in prepared:
+                return f"column {col} is prepared from column {src}, which is not prepared earlier"
+            for r, x in enumerate(vs):
+                drawn[(src, r)] = drawn.get((src, r), F(0)) + x
+                if drawn[(src, r)] > vmax[src]:
+                    return f"column {src} row {r}: {float(drawn[(src, r)])} µL drawn from a column that holds {float(vmax[src])} µL"
+            conc[col] = [x / vmax[col] * conc[src][r] for r, x in enumerate(vs)]
+        prepared.append(col)
+    x = np.asarray(plan.x, dtype=float)
+    for c in range(C):
+        for r in range(R):
+            want = conc[c][r]
+            if abs(F(float(x[r, c])) - want) > F(1, 10**9) * max(1, want):
+                return f"reported concentration x[{r},{c}] = {float(x[r, c])}, instructions imply {float(want)}"
+            if want > F(stock) * (1 + F(1, 10**9)):
+                return f"concentration {float(want)} above the stock concentration"
+    v_stock = sum(F(float(xx)) for _, d, s, v in plan.instructions if d == 0 for xx in np.atleast_1d(v))
+    if F(float(plan.v_stock)) != v_stock:
+        return f"v_stock = {plan.v_stock}, instructions use {float(v_stock)}"
+    if F(float(plan.v_diluent)) != sum(R * v for v in vmax) - v_stock:
+        return "v_diluent inconsistent"
+    return None
+
+
+def plan_exec(plan, stock_conc, dev, max_volume, with_dest, rng):
+    """Execute the plan on sufficiently large labware; tracked composition must equal plan.x."""
+    import numpy as np
+    R, C = plan.R, plan.C
+    big = float(sum(float(v) for v in plan.vmax) * R * 4 + 1000)
+    vr = rng.choice([1, 2, R, 8])
+    stock = impl.Trough("stock", vr, 1, min_volume=0, max_volume=big, initial_volumes=big)
+    dil = impl.Trough("diluent", rng.choice([1, R, 8]), 2, min_volume=0, max_volume=big, initial_volumes=[0, big])
+    plate = impl.Labware("dilplate", R + rng.choice([0, 1]), C + rng.choice([0, 2]), min_volume=0, max_volume=float(max(plan.vmax)) + 10)
+    dest = impl.Labware("dest", R, C, min_volume=0, max_volume=1000) if with_dest else None
+    wl = impl.make_wl({"dev": dev, "max_volume": max_volume})
+    kw = dict(worklist=wl, stock=stock, diluent=dil, diluent_column=1, dilution_plate=plate)
+    if with_dest:
+        kw.update(destination_plate=dest, v_destination=rng.choice([5.0, 10.0]))
+    kw.update(mix_repeat=rng.choice([0, 1, 2]), mix_volume=rng.choice([0.5, 0.8]))
+    try:
+        plan.to_worklist(**kw)
+    except Exception as e:  # noqa: BLE001
+        return f"to_worklist raised {e!r}"
+    comp = plate.composition
+    x = np.asarray(plan.x, dtype=float)
+    for c in range(C):
+        for r in range(R):
+            f = float(comp.get("stock", np.zeros_like(plate.volumes))[r, c])
+            got = f * float(stock_conc)
+            if abs(got - x[r, c]) > 1e-9 * max(1, abs(x[r, c])):
+                return f"well ({r},{c}): tracked concentration {got}, plan reports {x[r, c]}"
+    used_stock = big - float(stock.volumes[0, 0])
+    used_dil = big - float(dil.volumes[0, 1])
+    if abs(used_stock - float(plan.v_stock)) > 1e-6:
+        return f"stock consumed {used_stock}, plan says {plan.v_stock}"
+    if used_dil > float(plan.v_diluent) + 1e-6:
+        return f"diluent consumed {used_dil} > v_diluent {plan.v_diluent}"
+    return None
+
+
+def run_C14(ctx):
+    import numpy as np
+    from robotools import DilutionPlan
+    res = Result()
+    rng = ctx.rng
+    cases = []
+    fragile = 0
+    for _ in range(ctx.n(220)):
+        R = rng.choice([1, 2, 3, 4, 8, 16]) if rng.random() < 0.8 else rng.randint(1, 16)
+        C = rng.choice([1, 2, 3, 4, 6, 12, 24]) if rng.random() < 0.8 else rng.randint(1, 24)
+        stock = F(rng.choice([10, 20, 100, 50, 1000, 12]))
+        xmax = stock if rng.random() < 0.4 else stock / rng.choice([2, 4, 10])
+        xmin = xmax / rng.choice([2, 10, 100, 1000, 10000])
+        mode = rng.choice(["log", "linear"])
+        vmax = F(rng.choice([100, 200, 1000, 950, 300, 1500])) if rng.random() < 0.7 else [F(rng.choice([100, 200, 1000, 500])) for _ in range(C)]
+        if rng.random() < 0.15:
+            vmax = F(rng.choice([201, 1001, 1005])) / 2      # non-integer vmax
+        minT = F(rng.choice([1, 5, 10, 20, 30, 60]))
+        kw = dict(xmin=float(xmin), xmax=float(xmax), R=R, C=C, stock=float(stock), mode=mode,
+                  vmax=float(vmax) if not isinstance(vmax, list) else [float(v) for v in vmax], min_transfer=float(minT))
+        plan, err = None, None
+        try:
+            plan = DilutionPlan(**kw)
+        except Exception as e:  # noqa: BLE001
+            err = impl.classify(e)
+        case = {"kind": "fn", "fn": "DilutionPlan", "args": {k: (v if not isinstance(v, float) else F(v)) for k, v in kw.items()}}
+        msg = None
+        # ideal targets as the implementation computed them (inputs of the model)
+        if mode == "log":
+            ideal = np.exp(np.linspace(np.log(float(xmax)), np.log(float(xmin)), R * C))
+        else:
+            ideal = np.linspace(float(xmax), float(xmin), R * C)
+        ideal = ideal.reshape((R, C), order="F")
+        vm = [vmax] * C if not isinstance(vmax, list) else vmax
+        line = (f"dilution {R} {C} {proto.e_rat(stock)} {','.join(proto.e_rat(v) for v in vm)} {proto.e_rat(minT)} "
+                + ",".join(proto.e_rat(F(float(ideal[r, c]))) for r in range(R) for c in range(C)))
+        if plan is not None:
+            msg = plan_ok(plan, stock, minT)
+            if msg is None:
+                for dev in ("evo", "fluent"):
+                    m2 = plan_exec(plan, stock, dev, F(rng.choice([950, 200, 1000])), rng.random() < 0.3, rng)
+                    if m2:
+                        msg = f"execution on {dev}: {m2}"
+                        break
+            ans = "ok " + ";".join(f"{c}:{d}:{'stock' if isinstance(s, str) else int(s)}:" + ",".join(proto.e_rat(F(float(x))) for x in np.atleast_1d(v))
+                                   for c, d, s, v in plan.instructions)
+            ans += " x=" + ",".join(proto.e_rat(F(float(plan.x[r, c]))) for c in range(C) for r in range(R))
+        else:
+            ans = "err:" + err
+            if err != "valueErr":
+                msg = f"request that cannot be met raised {err}, not ValueError"
+        if msg:
+            msg = f"DilutionPlan({kw}): {msg}"
+        cases.append({"line": line, "impl": ans, "case": case, "oracle": msg, "sig": "C14:dilution_plan", "nontrivial": plan is not None})
+
+    def cmp(a, b):
+        if a == b:
+            return True
+        if a.startswith("err") or b.startswith("err") or not b.startswith("ok"):
+            return a[:3] == b[:3] and a.startswith("err")
+        ia, xa = a[3:].split(" x=")
+        ib, xb = b[3:].split(" x=")
+        if ia != ib:
+            return False
+        va, vb = [proto.d_rat(t) for t in xa.split(",")], [proto.d_rat(t) for t in xb.split(",")]
+        return len(va) == len(vb) and all(abs(p - q) <= F(1, 10**9) * max(1, abs(q)) for p, q in zip(va, vb))
+
+    # numerically fragile cases (a float rounding may flip round()/ceil() near a tie or an integer) are counted and skipped
+    answers = proto.run_driver(["fn " + c["line"] for c in cases])
+    kept = []
+    for c, a in zip(cases, answers):
+        if not cmp(c["impl"], a) and dilution_fragile(c):
+            fragile += 1
+            res.dist["dilution:fragile-skipped"] += 1
+            continue
+        kept.append(c)
+    fn_stream(ctx, res, "dilution_plan", kept, cmp)
+    res.extra["numerically_fragile_skipped"] = fragile
+    return res
+
+
+def dilution_fragile(c):
+    """True if, following the exact algorithm, some pre-rounding quantity lies within 1e-7 of a rounding tie / integer."""
+    a = c["case"]["args"]
+    toks = c["line"].split(" ")
+    R, C = int(toks[1]), int(toks[2])
+    stock = proto.d_rat(toks[3]) if "/" in toks[3] else F(toks[3])
+    vmax = [proto.d_rat(t) for t in toks[4].split(",")]
+    ideal = [proto.d_rat(t) for t in toks[6].split(",")]
+    eps = F(1, 10**7)
+    x = []
+    for c_ in range(C):
+        col = [ideal[r * C + c_] for r in range(R)]
+        for i in col:
+            qv = vmax[c_] * i / stock
+            fr = qv - (qv.numerator // qv.denominator)
+            if abs(fr - F(1, 2)) < eps:
+                return True
+        for prev in x:
+            for i, p in zip(col, prev):
+                if p == 0:
+                    continue
+                qv = vmax[c_] * i / p
+                fr = qv - (qv.numerator // qv.denominator)
+                if fr < eps or 1 - fr < eps:
+                    return True
+        # approximate achieved concentrations (either phase) for later columns
+        vt = [F(round(vmax[c_] * i / stock)) for i in col]
+        x.append([v / vmax[c_] * stock for v in vt])
+    return False
+
+
+register("C14", run_C14, level="translation_validation",
+         rule="(xmin, xmax, R, C, stock, mode, vmax scalar / per-column / non-integer, min_transfer) with R 1..16, C 1..24; every returned plan checked by an independent exact checker and executed with to_worklist on both devices; the implementation's ideal targets are fed to the Lean model of the planning algorithm")
